@@ -7,7 +7,7 @@ From GZ Require Import Lib.RollingWindow Lib.RollingWindowSpec Lib.RollingWindow
 From GZ Require Import C16.Model C16.ProofsMap C16.ProofsSeq C16.ProofsCache C16.ProofsCacheLru.
 From GZ Require Import C16.ModelW C16.ProofsW C16.ProofsWClamp.
 From GZ Require Import C16.Lin C16.ProofsLin C16.Check C16.ProofsExtra C16.ProofsRefW C16.ProofsHold.
-From GZ Require Import C16.ModelGate C16.ProofsGate C16.ProofsStress.
+From GZ Require Import C16.ModelGate C16.ProofsGate C16.ProofsStress C16.ProofsCommute.
 Import ListNotations.
 Open Scope Z_scope.
 
@@ -358,16 +358,121 @@ Proof. vm_compute. repeat split; repeat constructor; discriminate. Qed.
    detector) is judged against that history. *)
 Theorem map_disjoint_keys_independent : forall (T : Type) (mine : T -> bool) (ops : list (T * smop)) (m : amap),
   (forall p, In p ops -> mkey (snd p) <> None) ->
-  (forall k, uses T mine true k ops -> ~ uses T mine false k ops) ->
-  own_obs T mine (map_run_tagged m ops) = map_run m (own T mine ops).
+  (forall k, ProofsStress.uses T mine true k ops -> ~ ProofsStress.uses T mine false k ops) ->
+  ProofsStress.own_obs T mine (map_run_tagged m ops) = map_run m (ProofsStress.own T mine ops).
 Proof. exact disjoint_keys_independent_proof. Qed.
 Print Assumptions map_disjoint_keys_independent.
 
 (* non-vacuity: goroutine 1 on key 1, goroutine 2 on key 2, interleaved *)
 Example ex_disjoint_keys :
   let ops := [(1, MSet 1 10); (2, MSet 2 20); (2, MDel 2); (1, MGet 1); (2, MGet 2); (1, MDel 1); (1, MGet 1)] in
-  own_obs Z (Z.eqb 1) (map_run_tagged [] ops) = [OUnit; OOpt (Some 10); OUnit; OOpt None] /\
-  map_run [] (own Z (Z.eqb 1) ops) = [OUnit; OOpt (Some 10); OUnit; OOpt None].
+  ProofsStress.own_obs Z (Z.eqb 1) (map_run_tagged [] ops) = [OUnit; OOpt (Some 10); OUnit; OOpt None] /\
+  map_run [] (ProofsStress.own Z (Z.eqb 1) ops) = [OUnit; OOpt (Some 10); OUnit; OOpt None].
+Proof. vm_compute. split; reflexivity. Qed.
+
+(* ------------------------------------------------------------------ *)
+(* The sequential order in which tools/props/c16.py hands a "stress" history (several
+   goroutines on ONE object) to the judgements above is justified for every object it is used
+   for.  An execution is an interleaving: operations tagged with their goroutine, in the order
+   they took effect.  [separated ... mine K ops]: the goroutine [mine] addresses only keys in K,
+   everybody else none of them; [own] = its script, [own_obs] = what its operations returned. *)
+
+(* Cache without a limit: inside ANY interleaving with goroutines on other keys a goroutine's
+   operations (Set / Get / Del / Take / expiry) return what they return when it runs alone, and
+   its keys end as they end alone ... *)
+Theorem cache_disjoint_keys_independent :
+  forall (T : Type) (mine : T -> bool) (K : Z -> Prop) (ops : list (T * cop)) (c : cache),
+  climit c <= 0 -> separated cop T cop_key mine K ops ->
+  own_obs T mine (grun_tagged cache cop T cstep c ops) = c_run c (own cop T mine ops) /\
+  (forall k, K k -> alookup k (cdata (c_final c (map snd ops))) = alookup k (cdata (c_final c (own cop T mine ops)))).
+Proof. exact cache_disjoint_keys_independent_proof. Qed.
+Print Assumptions cache_disjoint_keys_independent.
+
+(* ... hence any two interleavings of the same scripts (the real one and "script 1, script 2,
+   ...") agree on every goroutine's answers and on what is held under its keys at the end *)
+Theorem cache_disjoint_ops_commute :
+  forall (T : Type) (mine : T -> bool) (K : Z -> Prop) (ops1 ops2 : list (T * cop)) (c : cache),
+  climit c <= 0 ->
+  separated cop T cop_key mine K ops1 -> separated cop T cop_key mine K ops2 ->
+  own cop T mine ops1 = own cop T mine ops2 ->
+  own_obs T mine (grun_tagged cache cop T cstep c ops1) = own_obs T mine (grun_tagged cache cop T cstep c ops2) /\
+  (forall k, K k -> alookup k (cdata (c_final c (map snd ops1))) = alookup k (cdata (c_final c (map snd ops2)))).
+Proof. exact cache_disjoint_ops_commute_proof. Qed.
+Print Assumptions cache_disjoint_ops_commute.
+
+(* the same for the map reference of SafeMap (Set / Get / Del), with the final contents *)
+Theorem map_disjoint_ops_commute :
+  forall (T : Type) (mine : T -> bool) (K : Z -> Prop) (ops1 ops2 : list (T * kmop)) (m : amap),
+  separated kmop T kmop_key mine K ops1 -> separated kmop T kmop_key mine K ops2 ->
+  own kmop T mine ops1 = own kmop T mine ops2 ->
+  own_obs T mine (grun_tagged amap kmop T mstep m ops1) = own_obs T mine (grun_tagged amap kmop T mstep m ops2) /\
+  own_obs T mine (grun_tagged amap kmop T mstep m ops1) = map_run m (map kmop_op (own kmop T mine ops1)) /\
+  (forall k, K k -> alookup k (gfin amap kmop mstep m (map snd ops1)) = alookup k (gfin amap kmop mstep m (map snd ops2))).
+Proof. exact map_disjoint_ops_commute_proof. Qed.
+Print Assumptions map_disjoint_ops_commute.
+
+(* and for Set (Add / Remove / Contains) - for completeness: collection.Set is documented as not
+   thread-safe and the check never uses it from several goroutines *)
+Theorem set_disjoint_ops_commute :
+  forall (T : Type) (mine : T -> bool) (K : Z -> Prop) (ops1 ops2 : list (T * ksop)) (s : list Z),
+  separated ksop T ksop_key mine K ops1 -> separated ksop T ksop_key mine K ops2 ->
+  own ksop T mine ops1 = own ksop T mine ops2 ->
+  own_obs T mine (grun_tagged (list Z) ksop T sstep s ops1) = own_obs T mine (grun_tagged (list Z) ksop T sstep s ops2) /\
+  (forall k, K k -> smem k (gfin (list Z) ksop sstep s (map snd ops1)) = smem k (gfin (list Z) ksop sstep s (map snd ops2))).
+Proof. exact set_disjoint_ops_commute_proof. Qed.
+Print Assumptions set_disjoint_ops_commute.
+
+(* RollingWindow, Sum / Count buckets (collection.Bucket): what Reduce hands out - per bucket the
+   sum and the number of values - is the same for every ORDER of the Adds: any permutation of the
+   history with non-decreasing times and the same last time ... *)
+Theorem window_adds_commute : forall (size : nat) (iv t0 : Z) (ig : bool) (h1 h2 : list (Z * Z)) (now : Z),
+  (1 <= size)%nat -> 0 < iv -> Permutation h1 h2 ->
+  rw_mono t0 h1 -> rw_mono t0 h2 -> rw_last_time t0 h1 = rw_last_time t0 h2 -> rw_last_time t0 h1 <= now ->
+  map bsum (rw_reduce (rw_run (rw_new size iv t0 ig) h1) now) =
+  map bsum (rw_reduce (rw_run (rw_new size iv t0 ig) h2) now).
+Proof. exact window_adds_commute_proof. Qed.
+Print Assumptions window_adds_commute.
+
+(* ... in particular the Adds of several goroutines at one instant (the kind stress) *)
+Theorem window_instant_adds_commute : forall (size : nat) (iv t0 : Z) (ig : bool) (t : Z) (vs1 vs2 : list Z) (now : Z),
+  (1 <= size)%nat -> 0 < iv -> t0 <= t -> t <= now -> Permutation vs1 vs2 ->
+  map bsum (rw_reduce (rw_run (rw_new size iv t0 ig) (map (fun v => (t, v)) vs1)) now) =
+  map bsum (rw_reduce (rw_run (rw_new size iv t0 ig) (map (fun v => (t, v)) vs2)) now).
+Proof. exact window_instant_adds_commute_proof. Qed.
+Print Assumptions window_instant_adds_commute.
+
+(* Queue / Ring: every goroutine puts the SAME value, so all interleavings are one and the same
+   operation sequence, whatever follows *)
+Theorem equal_ops_one_sequence : forall (A : Type) (o : A) (l1 l2 : list A),
+  Permutation l1 l2 -> (forall x, In x l1 -> x = o) -> l1 = l2.
+Proof. exact equal_ops_one_sequence_proof. Qed.
+Print Assumptions equal_ops_one_sequence.
+
+Theorem queue_equal_puts_commute : forall size v (l1 l2 post : list qop),
+  Permutation l1 l2 -> (forall o, In o l1 -> o = QPut v) ->
+  q_run (q_new size) (l1 ++ post) = q_run (q_new size) (l2 ++ post).
+Proof. exact queue_equal_puts_commute_proof. Qed.
+Print Assumptions queue_equal_puts_commute.
+
+Theorem ring_equal_adds_commute : forall n v (l1 l2 post : list rop),
+  Permutation l1 l2 -> (forall o, In o l1 -> o = RAdd v) ->
+  r_run (r_new n) (l1 ++ post) = r_run (r_new n) (l2 ++ post).
+Proof. exact ring_equal_adds_commute_proof. Qed.
+Print Assumptions ring_equal_adds_commute.
+
+(* non-vacuity: two goroutines (1 on key 1, 2 on key 2) of an unlimited cache, two interleavings *)
+Example ex_cache_disjoint :
+  let a := [(1, CSet 1 10); (2, CTake 2 (Some 20)); (1, CGet 1); (2, CDel 2); (2, CGet 2); (1, CTake 1 (Some 11))] in
+  let b := [(1, CSet 1 10); (1, CGet 1); (1, CTake 1 (Some 11)); (2, CTake 2 (Some 20)); (2, CDel 2); (2, CGet 2)] in
+  own cop Z (Z.eqb 1) a = own cop Z (Z.eqb 1) b /\
+  own_obs Z (Z.eqb 1) (grun_tagged cache cop Z cstep (c_new 0) a) = [OUnit; OOpt (Some 10); OTake (Some 10) false] /\
+  own_obs Z (Z.eqb 1) (grun_tagged cache cop Z cstep (c_new 0) b) = [OUnit; OOpt (Some 10); OTake (Some 10) false].
+Proof. vm_compute. repeat split. Qed.
+
+(* non-vacuity: three Adds at one instant in two orders, size 2 *)
+Example ex_window_commute :
+  map bsum (rw_reduce (rw_run (rw_new 2 1000 0 false) [(5, 1); (5, 2); (5, 4)]) 5) = [(0, 0); (7, 3)] /\
+  map bsum (rw_reduce (rw_run (rw_new 2 1000 0 false) [(5, 4); (5, 1); (5, 2)]) 5) = [(0, 0); (7, 3)].
 Proof. vm_compute. split; reflexivity. Qed.
 
 (* ------------------------------------------------------------------ *)
